@@ -497,6 +497,7 @@ class StatesManager:
         self.grid = grid
         self.pairing = pairing
         self._last_projected_index = -1
+        self._index_before_max_logged = None
 
     def is_outside(self, state_increment):
         state = self.origin_coordinates + state_increment
@@ -524,8 +525,13 @@ class StatesManager:
         is_outside = self.is_outside
         project = self.pairing.project
         if x == max_logged:
-            # reset the self._last_projected_index
-            self._last_projected_index = -1
+            # the caller restarts from the max logged index: go back to where the enumeration stood the first time this
+            # index was requested (x counts the admissible states, which is not the index of the pairing function as
+            # soon as an index has been skipped)
+            if self._index_before_max_logged is None:
+                self._index_before_max_logged = self._last_projected_index
+            else:
+                self._last_projected_index = self._index_before_max_logged
 
         xx = max(x, self._last_projected_index + 1)
 
